@@ -2,6 +2,7 @@
 # runs every mutation through the quick check inside a private copy of the clone
 set -u
 W=/var/tmp/ag-shared/scratch
+mkdir -p $W; cp /var/tmp/ag-shared/verif/notes/C17_mutations/mutate.py $W/mutate.py
 rm -rf $W/vm && cp -r /var/tmp/ag-shared/verif $W/vm
 for m in ${@:-$(python3 $W/mutate.py list x)}; do
   python3 $W/mutate.py $m $W/mut || { echo "$m: MUTATION DID NOT APPLY"; continue; }
